@@ -110,6 +110,15 @@ def h(sym, orders, K, mode, P=None, before=None):
     sk.period = P
     sk.stamp = 0
     del STAMPS[:]
+    orig_change = store.changeStamp
+    nticks = [0]
+
+    def changeStamp(stamp):
+        nticks[0] += 1
+        if nticks[0] > K + 12:
+            raise RuntimeError("run did not end within %d ticks (controller bids stop all at tick %d)" % (K + 12, K))
+        orig_change(stamp)
+    store.changeStamp = changeStamp
     sk.run()
     taskorder = [f.name for f in house.taskables]
     # expected declared order: fronts, mids, backs in declaration order (computed from the selectors)
